@@ -110,7 +110,7 @@ def main():
     ok3 = not real_fail
     clean(wt)
     # 4. static checks
-    rc, out = run(f"/verif/tools/try_mutation.sh {patch}", "/verif")
+    rc, out = run(f"/verif/tools/try_mutation.sh {patch} " + os.environ.get("EVAL_REPO", "/repo"), "/verif")
     fired = [l.strip() for l in out.split("\n") if l.startswith("FIRED") or l.startswith("    ")]
     result["steps"]["verif_checks"] = {"rc": rc, "fired": fired, "summary": [l for l in out.split("\n") if l.startswith("ALL:") or "does not apply" in l]}
     result["confirmed"] = bool(ok1 and okb and ok2 and ok3)
